@@ -408,6 +408,42 @@ Definition m_api_transpose (σ : store) (t : nat) (axes : list Z) : res (store *
   | Panic => Panic
   end.
 
+(* Reshape(dims...) *)
+(* result: (state, refused?) — a late refusal by sanity() leaves the new shape installed *)
+Definition m_reshape (σ : store) (t : nat) (dims : list Z) : res (store * bool) :=
+  match get_t σ t with
+  | None => Panic
+  | Some d =>
+    if negb (size (shp (d_ap d)) =? size dims) then Ok (σ, true)
+    else if d_view d && is_nc (ord (d_ap d)) then Ok (σ, true)
+    else
+      match (if is_some (d_old d) then m_transpose_d σ d else Ok (σ, d)) with
+      | Ok (σ1, d1) =>
+        let a := d_ap d1 in
+        let a' := match dims with
+                  | [] => mkAP [] [] (ord a) true
+                  | _ => mkAP dims (default_strides (ord a) dims) (ord a) true
+                  end in
+        let d2 := mkDense (d_buf d1) (d_off d1) (d_len d1) a' (d_old d1) (d_view d1) in
+        let σ2 := set_t σ1 t d2 in
+        (* sanity(): the shape has already been replaced when it fails *)
+        if negb (d_view d2) && negb (d_len d2 =? size dims) && negb (is_scalar dims) then Ok (σ2, true)
+        else Ok (σ2, false)
+      | Err => Err
+      | Panic => Panic
+      end
+  end.
+
+(* the metadata invariant of C13, as a boolean on the model state: size = product of the shape,
+   and the offsets of the box are pairwise distinct positions inside the window *)
+Fixpoint all_distinct (l : list Z) : bool :=
+  match l with [] => true | x :: r => negb (existsb (Z.eqb x) r) && all_distinct r end.
+
+Definition meta_inv_obs (d : dense) : bool * bool :=
+  let a := d_ap d in
+  let offs := map (fun c => match ltoi (shp a) (str a) c with Ok o => o | _ => -1 end) (coords (shp a)) in
+  (all_distinct offs, forallb (fun o => (0 <=? o) && (o <? d_len d)) offs).
+
 (* ---- observation ---- *)
 Definition logical (σ : store) (t : nat) : list (res V) :=
   match get_t σ t with
